@@ -174,6 +174,7 @@ class Translator:
         self.param_kinds = {}                 # name -> 'Z' | 'arr'
         self.fname = ""
         self.free_as_params = False           # slices: unknown variables become parameters
+        self.call_hooks = {}                  # callee name -> function(translator, node, env) -> E
 
     # -- variable naming ---------------------------------------------------
     def fresh(self, base):
@@ -328,6 +329,8 @@ class Translator:
             while callee.get("kind") == "ImplicitCastExpr":
                 callee = skip_parens(callee["inner"][0])
             name = callee.get("referencedDecl", {}).get("name")
+            if name in self.call_hooks:
+                return self.call_hooks[name](self, n, env)
             if name in self.known_funcs:
                 gname, opt = self.known_funcs[name]
                 if opt:
@@ -643,7 +646,10 @@ class Translator:
         if inc is not None:
             self.referenced(inc, refs)
         refs = set(self.resolve_alias(x) for x in refs)
-        fvars = sorted(x for x in refs if x in env and x not in lvars and env[x] != "0")
+        skip = getattr(self, "skip", ())
+        extra = getattr(self, "extra", [])
+        fvars = sorted(x for x in refs if x in env and x not in lvars and env[x] != "0" and x not in skip
+                       and not any(x == a or x.startswith(a + "_") for a in getattr(self, "aliases", {}) if getattr(self, "aliases", {})[a] in skip))
         self.loopn = getattr(self, "loopn", 0) + 1
         lname = "%s_loop%d" % (self.gname, self.loopn)
         # inside the loop function the variables carry their own names
@@ -656,7 +662,7 @@ class Translator:
                 kinds[lenv[x]] = "arr"
                 self.param_kinds[lenv[x]] = "arr"
         tup = lambda e2: self.tuple_of([e2[x] for x in lvars]) if lvars else "tt"
-        recur = lambda e2: "%s fuel' %s" % (lname, " ".join([lenv[x] for x in fvars] + [e2[x] for x in lvars]))
+        recur = lambda e2: "%s fuel' %s" % (lname, " ".join([n for n, _ in extra] + [lenv[x] for x in fvars] + [e2[x] for x in lvars]))
         KL = dict(
             fin=(lambda e2: self.stmts([inc], e2, dict(fin=recur, ret=None, brk=None, cont=None)) if inc is not None else recur(e2)),
             ret=lambda e, e2: "Some (inr %s)" % (e.z() if e is not None else "tt"),
@@ -667,7 +673,8 @@ class Translator:
         if cond is not None:
             c = self.expr(cond, lenv)
             body_t = "(if %s then\n%s\nelse Some (inl %s))" % (c.b(), body_t, tup(lenv))
-        args = " ".join("(%s : %s)" % (lenv[x], "Z -> Z" if kinds.get(lenv[x]) == "arr" else "Z") for x in fvars + lvars)
+        args = " ".join(["(%s : %s)" % (n, t) for n, t in extra] +
+                        ["(%s : %s)" % (lenv[x], "Z -> Z" if kinds.get(lenv[x]) == "arr" else "Z") for x in fvars + lvars])
         ltype = " * ".join(["Z"] * len(lvars)) if lvars else "unit"
         rtype = "unit" if getattr(self, "ret_void", False) else "Z"
         self.aux.append((lname, "Fixpoint %s (fuel : nat) %s {struct fuel} : option ((%s) + %s) :=\n  match fuel with\n  | O => None\n  | S fuel' =>\n%s\n  end.\n" % (lname, args, ltype, rtype, body_t)))
@@ -677,7 +684,7 @@ class Translator:
         for x, v in zip(lvars, news):
             env2[x] = v
         pat = "tt" if not lvars else (news[0] if len(news) == 1 else "(%s)" % ", ".join(news))
-        call = "%s fuel %s" % (lname, " ".join([env[x] for x in fvars] + [env[x] for x in lvars]))
+        call = "%s fuel %s" % (lname, " ".join([n for n, _ in extra] + [env[x] for x in fvars] + [env[x] for x in lvars]))
         return "match %s with\n| None => None\n| Some (inr r_) => %s\n| Some (inl %s) =>\n%s\nend" % (
             call, K["ret"](E("r_", "Z", True), env) if K.get("ret") else "None", pat, self.stmts(rest, env2, K))
 
@@ -692,21 +699,30 @@ def body_uses_loops(n):
     return any(body_uses_loops(c) for c in n.get("inner", []) if isinstance(c, dict))
 
 
-def translate_function(fn, gname=None, structs=None, known_funcs=None, tables=None, outputs=None, arrays=()):
+def translate_function(fn, gname=None, structs=None, known_funcs=None, tables=None, outputs=None, arrays=(),
+                       call_hooks=None, extra_params=(), skip_params=()):
     """fn: FunctionDecl JSON.  Pointer-to-struct parameters are flattened into one Z parameter per
     field (structs: typedef -> fields).  outputs: list of location keys returned after the return
     value (default: all fields of non-const struct pointer parameters that are assigned)."""
     T = Translator(structs, known_funcs, tables)
     T.fname = fn["name"]
     T.gname = gname or fn["name"]
+    T.call_hooks = call_hooks or {}
+    T.skip = tuple(skip_params)
+    T.extra = list(extra_params)
     env = {}
-    params = []
+    params = [(n, t) for n, t in extra_params]
+    for n, t in extra_params:
+        T.param_kinds[n] = "arr" if "->" in t else "Z"
     written_candidates = []
     for p in fn.get("inner", []):
         if p.get("kind") != "ParmVarDecl":
             continue
         name = p.get("name")
         if name is None:
+            continue
+        if name in skip_params:
+            env[name] = name
             continue
         ty = strip_quals(tystr(p))
         qty = p.get("type", {}).get("qualType", "")
